@@ -249,6 +249,98 @@ def F24():
     return None
 
 
+def F28():
+    """C07: disconnect() then loop_stop() from an application thread while the network thread is exiting:
+    loop_stop() reads self._thread twice; the network thread clears it in between -> AttributeError."""
+    from streams.threads import run_scenario
+    for seed in (488455, 1, 2, 3, 4, 5, 6, 7):
+        o = run_scenario(f"thr seed={seed} policy=random sw=0.1 msgs=0,1,0 N=1 early=1 proto=4")
+        bad = [e for e in o["errors"] if "AttributeError" in e]
+        if bad:
+            return f"seed {seed}: {bad[0]}"
+    return None
+
+
+def F27():
+    """C01: a QoS 1 message accepted while disconnected (MQTT_ERR_NO_CONN) is sent and acknowledged after connecting,
+    on_publish fires - but its MQTTMessageInfo keeps raising in is_published()/wait_for_publish()."""
+    w = World()
+    c = mk_client(w)
+    info = c.publish("t", b"x", 1)
+    connect(c, w)
+    w.cur().feed(wire.enc_ack(4, wire.PUBACK, 1))
+    pump_read(c)
+    try:
+        ok = info.is_published()
+    except Exception as e:  # noqa: BLE001
+        return f"message acknowledged, but info.is_published() raises {type(e).__name__}: {e}"
+    return None if ok else "message acknowledged, but info.is_published() is False"
+
+
+def F26():
+    """C02: a write fails while the retransmission after CONNACK is in progress: the next stored message is marked
+    as sent although nothing was handed to the connection; after the next reconnect its FIRST PUBLISH carries DUP=1."""
+    w = World()
+    c = mk_client(w, clean=False)
+    c.publish("t", b"x", 1)
+    c.publish("t", b"y", 1)
+    c.connect("broker", 1883, 60)
+    w.cur().outscript.append(("error",))
+    w.cur().feed(wire.enc_connack(4, sp=0))
+    pump_read(c)
+    c.reconnect()
+    w.cur().feed(wire.enc_connack(4, sp=1))
+    pump_read(c)
+    second = [d for d in pkts(w.cur()) if d["type"] == "PUBLISH" and d["mid"] == 2]
+    if second and second[0]["dup"]:
+        return "first transmission of message mid=2 carries DUP=1 (it was marked as sent on a connection that was already gone)"
+    return None
+
+
+def F25():
+    """C09: the socket cannot be opened during the protocol-downgrade retry made inside the CONNACK handler:
+    OSError escapes loop_read() / loop_forever() (the network thread dies) instead of a normal failed attempt."""
+    w = World()
+    c = mk_client(w, proto=4)
+    fails = []
+    c.on_connect_fail = lambda cl, ud: fails.append(1)
+    c.connect("broker", 1883, 60)
+    w.attempt_script.append("refuse")
+    w.cur().feed(wire.enc_connack(4, rc=1))
+    try:
+        rc = c.loop_read()
+    except OSError as e:
+        return f"{type(e).__name__} escapes loop_read() from the CONNACK handler"
+    if not fails or rc == 0:
+        return f"loop_read() returned {rc}, on_connect_fail calls: {len(fails)}"
+    return None
+
+
+def F29():
+    """C05: a packet whose first byte is 0x00: delivered whole it is a protocol error; with a would-block right after
+    that byte the client forgets it (0 = 'no command read yet') and re-frames the stream."""
+    outs = []
+    for chunks in ([b"\x00\x02\x10\x00"], [b"\x00", None, b"\x02\x10\x00"]):
+        w = World()
+        c = mk_client(w)
+        connect(c, w)
+        s = w.cur()
+        for ch in chunks:
+            if ch is None:
+                s.feed_eagain()
+            else:
+                s.feed(ch)
+        rcs = []
+        for _ in range(6):
+            if c.socket() is None or not raw(c.socket()).inq:
+                break
+            rcs.append(int(c.loop_read()))
+        outs.append((rcs[-1] if rcs else None, c.socket() is None))
+    if outs[0] != outs[1]:
+        return f"outcome depends on fragmentation: whole -> {outs[0]}, split after the zero byte -> {outs[1]} (last rc, socket closed)"
+    return None
+
+
 def F8():
     """C06: WebSocket, transport accepts 5 bytes of a frame -> packet dropped from the queue."""
     w = World()
@@ -439,7 +531,7 @@ def F18():
 
 
 ALL = {"F1": F1, "F2": F2, "F3": F3, "F4": F4, "F4b": F4b, "F5": F5, "F6": F6, "F7": F7, "F8": F8, "F9": F9,
-       "F10": F10, "F19": F19, "F20": F20, "F21": F21, "F22": F22, "F23": F23, "F24": F24, "F11": F11, "F12": F12, "F13": F13, "F15": F15, "F16": F16, "F17": F17, "F18": F18}
+       "F10": F10, "F19": F19, "F20": F20, "F21": F21, "F22": F22, "F23": F23, "F24": F24, "F25": F25, "F26": F26, "F29": F29, "F27": F27, "F28": F28, "F11": F11, "F12": F12, "F13": F13, "F15": F15, "F16": F16, "F17": F17, "F18": F18}
 
 
 def run(name):
